@@ -76,6 +76,10 @@ func GenHostile(seed uint64) *Scenario {
 		sc.Strings = strs
 	case 1:
 		m := hostileManifest(r, strs)
+		if kr := simkit.NewRNG(seed, "bw/manifest-kind"); kr.Chance(1, 25) {
+			// not a regular file at all
+			m = simkit.Pick(kr, []string{"@FIFO@", "@LINK-FIFO@", "@DIR@"})
+		}
 		sc.Manifest = &m
 	default:
 		// through a peer: one package, one analysis, hostile strings in its declarations
